@@ -2577,6 +2577,26 @@ v("C11", "decoder-factory-wrong-code", "httpgrpc/server.go",
   "			return status.Error(codes.InvalidArgument, err.Error())", "			return status.Error(codes.Internal, err.Error())", "R5", "decode-error-code",
   "after refactoring D4-r3 (decode callback built by a factory): an undecodable request is reported as Internal", patch="refactors/D4-r3/patch.diff")
 
+# ------------------------------------------------------------------ the former known false alarms with one instance broken
+v("C05", "split-finish-no-unlock", "inprocgrpc/in_process.go",
+  "	s.state = streamStateClosed\n	close(s.responses)\n	s.mu.Unlock()\n}", "	s.state = streamStateClosed\n	close(s.responses)\n}", "R4", "released",
+  "after refactoring B2-r2 (finish split into steps, the deferred tail as a method): the tail forgets to unlock", patch="refactors/B2-r2/patch.diff")
+v("C02", "split-finish-error-frame-of-nil", "inprocgrpc/in_process.go",
+  "		_ = writeMessage(s.ctx, nil, s.responses, frame{err: asStatusError(err)})\n	}\n}", "	}\n	_ = writeMessage(s.ctx, nil, s.responses, frame{err: asStatusError(err)})\n}", "R2", "error-frame",
+  "after refactoring B2-r2: the error frame is written whether or not there is an error", patch="refactors/B2-r2/patch.diff")
+v("C05", "method-tail-no-lock", "httpgrpc/client.go",
+  "	if !rMuHeld {\n		cs.rMu.Lock()\n	}\n	defer cs.rMu.Unlock()\n", "	if !rMuHeld {\n		cs.rMu.Lock()\n		cs.rMu.Unlock()\n	}\n", "R1", "",
+  "after refactoring C-r4 (the response reader's deferred tail as a method): the completion fields are written without the lock", patch="refactors/C-r4/patch.diff")
+v("C04", "method-tail-raw-ctx-error", "httpgrpc/client.go",
+  "		rErr = statusFromContextError(ctxErr)", "		rErr = ctxErr", "R2", "",
+  "after refactoring C-r4: the context error is stored untranslated", patch="refactors/C-r4/patch.diff")
+v("C01", "handled-protocol-success-without-decode", "inprocgrpc/in_process.go",
+  "		return true, internal.TranslateContextError(s.last.err)\n	}\n	return false, nil\n}", "		return true, internal.TranslateContextError(s.last.err)\n	}\n	return true, nil\n}", "R3", "success-needs-one-decode",
+  "after refactoring A2-r4 (receive split with a (handled, err) protocol): an unhandled peeked frame is reported as a received message", patch="refactors/A2-r4/patch.diff")
+v("C20", "helper-arm-not-done", "inprocgrpc/in_process.go",
+  "	if ctx == nil {\n		return nil\n	}\n	return ctx.Done()\n}", "	if ctx == nil {\n		return closedChan\n	}\n	return ctx.Done()\n}\n\nvar closedChan = func() chan struct{} { c := make(chan struct{}); close(c); return c }()", "R2", "send-select",
+  "after refactoring A2-r4 (doneOrNil helper): without a peer context the helper answers with a closed channel, so the send gives up at once", patch="refactors/A2-r4/patch.diff")
+
 
 def main():
     if os.path.isdir(OUT):
